@@ -356,7 +356,8 @@ def _run(ctx):
     quick = ctx.quick
     rng = random.Random(ctx.seed)
     ctx.assumptions += [
-        "duration classes: 1 ns (expired at every processing call, the driver sleeps 300 us before it) / 1 h (never)",
+        "duration classes: 1 ns (expired at every processing call, the driver sleeps 300 us before it) / 1 h (never); "
+        "scripted timed programs add intervals of 120 ms with sleeps of 200 ms (lower bounds, also inside callbacks)",
         "listener readiness is level triggered and changes only through the driver's notify / try_wait calls",
         "capacity clause exercised on a select-based service variant built from public items (FD_SETSIZE = 1024)",
         "descriptor<->deadline map sizes are read from the Debug representation of the wait set",
@@ -421,6 +422,38 @@ def _run(ctx):
         for r in vp.read_ndjson(traces[-1]))
     if s is None or not rfull_exercised:
         ctx.note("reactor-level capacity (ReactorAttachError::CapacityExceeded) was NOT exercised")
+    # timed programs (scripted): intervals of the "mid" class (period 120 ms) and sleeps of 200 ms outside of and INSIDE
+    # callbacks - a tick that becomes due while the wait set is processing must be reported by the next call, also when a
+    # notification is pending in the same call. Sleeps are lower bounds only: no verdict depends on real durations.
+    def P(**kw):
+        d = {"a": "process", "stop": 0, "inj": [], "tmo": 1, "slp": 0}
+        d.update(kw)
+        return d
+    AI = lambda g, c: {"a": "attach", "g": g, "ty": "i", "l": 0, "c": c}
+    AN = lambda g, l: {"a": "attach", "g": g, "ty": "n", "l": l, "c": "-"}
+    AD = lambda g, l, c: {"a": "attach", "g": g, "ty": "d", "l": l, "c": c}
+    SL, NO = {"a": "sleep"}, lambda sv: {"a": "notify", "s": sv}
+    timed = [
+        [AI(1, "s"), AI(2, "m"), P(slp=1), P(), {"a": "sleep"}, P(), P(slp=1), P(slp=1), P(), {"a": "drop", "g": 2}, P()],
+        [AN(1, 1), AI(2, "m"), SL, NO(1), P(), NO(1), P(slp=1), NO(1), P(), SL, P(), NO(1), P(slp=1, stop=1), P()],
+        [AD(1, 1, "l"), AI(2, "m"), AI(3, "m"), NO(1), P(slp=1), P(), SL, NO(1), P(slp=2), P(), {"a": "drop", "g": 3}, SL, P()],
+    ]
+    timed_traces = []
+    for mode in ("ipc", "local"):
+        progs = [{"nl": 2, "ng": 3, "cap": 99, "nsvc": 2, "svc": mode, "steps": st} for st in timed]
+        trace, summ = run_driver(ctx, mode, f"{mode}-timed", programs=progs)
+        if summ.get("ops", {}).get("sleep", 0) == 0 and summ.get("op", {}).get("sleep", 0) == 0 and "sleep" not in json.dumps(summ):
+            raise vp.ToolError(f"vacuous timed run {mode}: {summ}")
+        timed_traces.append(trace)
+    trecs = []
+    for t in timed_traces:
+        trecs += vp.read_ndjson(t)
+    if not any(r.get("a") == "sleep" and r.get("in") == 1 for r in trecs) or \
+            not any(r.get("a") == "cb" and r.get("ev") == [2] for r in trecs):
+        raise vp.ToolError("vacuous timed runs: no sleep inside a callback / the mid interval never fired")
+    tbig = ctx.path("traces", "timed.ndjson")
+    vp.write_ndjson(tbig, trecs)
+    validate(ctx, tbig, {"mode": "timed"}, "timed")
     # one concatenated trace: the JVM starts once
     allrecs = []
     for t in traces:
